@@ -11,7 +11,7 @@
 alignas(64) char pool[VF_NP][VF_PS]; size_t npages; int seen[VF_NP];
 struct PA : public babylon::PageAllocator {
   size_t page_size() const noexcept override { return VF_PS; }
-  void allocate(void** pages, size_t n) noexcept override { for (size_t i = 0; i < n; ++i) { vf_assert(npages < VF_NP); pages[i] = pool[npages++]; } }
+  void allocate(void** pages, size_t n) noexcept override { for (size_t i = 0; i < n; ++i) { vf_check(npages < VF_NP, 9); pages[i] = pool[npages++]; } }
   void deallocate(void**, size_t) noexcept override {}
 };
 PA pa; babylon::LogStreamBuffer* buf; struct iovec iovs[64];
@@ -19,28 +19,40 @@ extern "C" {
 void vf_init() { buf = new babylon::LogStreamBuffer; buf->set_page_allocator(pa); }
 void vf_thread_0() {
   size_t n = vf_nondet64(); vf_assume(n <= VF_N);
+#ifdef VF_FLUSH
+  // the stream is flushed (std::flush / std::endl => pubsync) once at a symbolic position, possibly mid-page, and written on
+  size_t f = vf_nondet64(); vf_assume(f <= n);
+#endif
   buf->begin();
-  for (size_t i = 0; i < n; ++i) buf->sputc((char)(i + 1));
+  for (size_t i = 0; i < n; ++i) {
+#ifdef VF_FLUSH
+    if (i == f) buf->pubsync();
+#endif
+    buf->sputc((char)(i + 1));
+  }
+#ifdef VF_FLUSH
+  if (f == n) buf->pubsync();
+#endif
   babylon::LogEntry& e = buf->end();
-  vf_assert(e.size == n);
+  vf_check(e.size == n, 1);
   // rebuild the scatter list with the real code
   struct iovec* out = iovs; size_t cnt = 0;
   {
     std::vector<struct iovec> iov; iov.reserve(64);
     e.append_to_iovec(VF_PS, iov);
-    cnt = iov.size(); vf_assert(cnt <= 64);
+    cnt = iov.size(); vf_check(cnt <= 64, 2);
     for (size_t i = 0; i < cnt && i < 64; ++i) out[i] = iov[i];
   }
   size_t total = 0;
   for (size_t i = 0; i < cnt && i < 64; ++i) {
     size_t k = ((char*)out[i].iov_base - &pool[0][0]) / VF_PS;
-    vf_assert(k < npages && (char*)out[i].iov_base == pool[k]);
+    vf_check(k < npages && (char*)out[i].iov_base == pool[k], 2);
     if (k < VF_NP) seen[k]++;
-    vf_assert(out[i].iov_len <= VF_PS);
-    for (size_t j = 0; j < out[i].iov_len && j < VF_PS; ++j) vf_assert(((char*)out[i].iov_base)[j] == (char)(total + j + 1));
+    vf_check(out[i].iov_len <= VF_PS, 2);
+    for (size_t j = 0; j < out[i].iov_len && j < VF_PS; ++j) vf_check(((char*)out[i].iov_base)[j] == (char)(total + j + 1), 3);
     total += out[i].iov_len;
   }
-  vf_assert(total == n);
-  for (size_t k = 0; k < npages && k < VF_NP; ++k) vf_assert(seen[k] == 1);
+  vf_check(total == n, 4);
+  for (size_t k = 0; k < npages && k < VF_NP; ++k) vf_check(seen[k] == 1, 5);
 }
 }
